@@ -55,7 +55,12 @@ pub enum Refusal {
     Mmap(u8),
     Madvise(u8),
     RegisterFiles,
+    /// IORING_REGISTER_FILES2 fails with the k-th of REGISTER_ERRNOS (the
+    /// errnos that mean "try again" elsewhere included).
+    RegisterFilesErrno(u8),
 }
+
+const REGISTER_ERRNOS: [i32; 6] = [libc::EINTR, libc::ETIME, libc::EBUSY, libc::EFAULT, libc::EMFILE, libc::EAGAIN];
 
 const REQUIRED: [u32; 4] = [abi::FEAT_NODROP, abi::FEAT_SUBMIT_STABLE, abi::FEAT_RW_CUR_POS, abi::FEAT_SQPOLL_NONFIXED];
 
@@ -77,6 +82,9 @@ pub fn all_refusals() -> Vec<Refusal> {
         v.push(Refusal::Madvise(k));
     }
     v.push(Refusal::RegisterFiles);
+    for k in 0..REGISTER_ERRNOS.len() as u8 {
+        v.push(Refusal::RegisterFilesErrno(k));
+    }
     v
 }
 
@@ -269,6 +277,7 @@ fn run_one(cfg: &Cfg, refusal: Refusal, ctx: &mut Ctx) -> Option<String> {
                 s.cfg.features_remove = REQUIRED[a as usize] | b.map_or(0, |b| REQUIRED[b as usize]);
             }
             Refusal::RegisterFiles => s.cfg.register_fail = Some((abi::REGISTER_FILES2, libc::ENOMEM)),
+            Refusal::RegisterFilesErrno(k) => s.cfg.register_fail = Some((abi::REGISTER_FILES2, REGISTER_ERRNOS[k as usize % REGISTER_ERRNOS.len()])),
             _ => {}
         }
     }
@@ -342,6 +351,10 @@ fn run_one(cfg: &Cfg, refusal: Refusal, ctx: &mut Ctx) -> Option<String> {
         (Refusal::Madvise(_), Ok(_)) => Err((Some(libc::EINVAL), false)),
         (Refusal::RegisterFiles, Ok(g)) => match cfg.direct {
             Some(_) => Err((Some(libc::ENOMEM), false)),
+            None => Ok(g),
+        },
+        (Refusal::RegisterFilesErrno(k), Ok(g)) => match cfg.direct {
+            Some(_) => Err((Some(REGISTER_ERRNOS[k as usize % REGISTER_ERRNOS.len()]), false)),
             None => Ok(g),
         },
         (Refusal::None, Ok(g)) => match cfg.direct.map(direct_verdict) {
